@@ -444,6 +444,12 @@ func (rpcapi *ClusterRPCAPI) PinsRaw(ctx context.Context, in struct{}, out *[]*a
 		}
 	}
 '''),
+ ('C05-hand-replaced-op-not-cancelled', 'pintracker/optracker/operationtracker.go',
+  '''		op.Cancel() // cancel ongoing operation and replace it
+''', ''),
+ ('C05-hand-dedupe-ignores-failed-phase', 'pintracker/optracker/operationtracker.go',
+  '''op.Type() == typ && op.Phase() != PhaseError && op.Phase() != PhaseDone''', '''op.Type() == typ && op.Phase() != PhaseDone'''),
+ ('C15-hand-display-reads-other-tag', 'config/util.go', '''f.Tag.Get("hidden") == "true"''', '''f.Tag.Get("hide") == "true"'''),
  # C18
  ('C18-hand-store-add-under-rlock', 'monitor/metrics/store.go', None, None),
  ('C18-hand-unlock-removed-on-one-path', 'pintracker/optracker/operationtracker.go',
